@@ -128,6 +128,17 @@ Theorem sem_int_ovf_is_docspec : forall o ks kd a b r fs fu,
 Proof. exact int_ovf_refines_doc. Qed.
 Print Assumptions sem_int_ovf_is_docspec.
 
+(* long double at function boundaries of the reference semantics: between MIR functions (arguments,
+   results) a long double passes with all its 80 bits and nothing but a long double passes at type ld,
+   a long double passes at no other type; external functions and the entry result do not take the type *)
+Theorem sem_long_double_boundary : forall z,
+  conv_ty Syntax.T_LD false (V z LDt) = Ok (V z LDt) /\
+  (forall g, g <> LDt -> conv_ty Syntax.T_LD false (V z g) = Er E_tag) /\
+  (forall v, conv_ty Syntax.T_LD true v = Er E_tag) /\
+  (forall t, t <> Syntax.T_LD -> conv_ty t false (V z LDt) = Er E_tag).
+Proof. exact ld_boundary. Qed.
+Print Assumptions sem_long_double_boundary.
+
 (* ---- GVN: the value of a phi (mir-gen.c gvn_phi_val; model C01/PhiVal.v) ------------------------------
    A bb_insn's value is (is-constant flag, number): the constant itself, or the value number of its
    expression - both small integers in ONE field.  [phi_cmp_flag]/[phi_cmp_val] (coq/gen/C01PhiVal.v,
